@@ -62,6 +62,9 @@ add("cv_rdsig_g", ["C01", "C04"], "t", progs=[P("L", cvw(), "U"), P("G1", "R", "
 add("cv_allf_g", ["C04", "C06"], "q", progs=[P("L", mwt(1), "U"), P("G1", "L", cvw(), "U"), P("G2", "R", "S", "RU")], NV=1, conds=C1)
 add("cv_gen", ["C04", "C05"], "q", progs=[P("L", cvl(v=1, dl=1, x=9), "U"), P("L", "set11", "S", "U")], NV=1, MaxNow=1)
 add("cv_gen2_g", ["C04"], "t", progs=[P("L", cvl(v=1, dl=1, x=9), "U"), P("G1", "L", cvl(v=1, dl=1, x=9), "U"), P("G2", "L", "set11", "U", "S")], NV=1, MaxNow=1)
+# a native waiter with a generic-lock waiter (same mutex behind the client's own lock routines) queued behind it; broadcast with the mutex held,
+# so wake_waiters considers moving both to the mutex queue; the first waiter then locks again while the generic one may hold the mutex (6.8)
+add("cv_gen_mix_g", ["C04", "C02"], "t", progs=[P("L", cvw(), "U", "L", "U"), P("G1", "L", cvw(x=9), "U"), P("G2", "L", "B", "U")], NV=1)
 add("mw_to_g", ["C05"], "q", progs=[P("L", mwt(1), "U"), P("G1", "L", mwt(1, dl=1), "U"), P("G2", "L", "set11", "U")], NV=1, conds=C1, MaxNow=1)
 add("mw_eq3_g", ["C06"], "t", progs=[P("L", mwt(1), "U"), P("G1", "L", mwt(3), "U"), P("G2", "L", mwt(4), "U"), P("G3", "L", "set21", "U")], NV=2, conds=CS)
 add("mw_3c_g", ["C06"], "t", progs=[P("L", mwt(1), "U"), P("G1", "L", mwt(2), "U"), P("G2", "L", mwt(3), "U"), P("G3", "L", "set21", "U", "L", "set11", "U")], NV=2, conds=CS)
@@ -128,6 +131,8 @@ RANDOM = {
             dict(progs=[P("R", cvw(dl=1), "RU"), P("R", "S", "RU", "R", "RU"), P("L", "U", "R", "RU"), P("R", "RU", "L", "B", "U")], NV=1),
             dict(progs=[P("L", mwt(1, dl=1), "U"), P("R", mwt(1, dl=1), "RU"), P("L", "set11", "U"), P("R", "RU", "T")], NV=1, conds=C1)],
     "C02": [dict(progs=[P("L", "U", "L", "U"), P("R", "RU", "R", "RU"), P("L", "U", "T"), P("R", "RU", "RT"), P("T", "L", "U")], NV=1),
+            # lockers on a mutex that is also used through the generic cv interface (6.8: the designated-waker hint left set)
+            dict(progs=[P("L", cvw(), "U", "L", "U"), P("G1", "L", cvw(x=9), "U"), P("G2", "L", "B", "U"), P("G2", "L", "U", "R", "RU")], NV=1),
             dict(progs=[P("L", "U"), P("R", "RU"), P("R", "RU"), P("L", "U", "L", "U"), P("RT", "R", "RU")], NV=1)],
     "C04": [dict(progs=[P("L", mwt(1), "U"), P("G1", "L", cvw(), "U"), P("G2", "R", "S", "RU"), P("G2", "R", "RU")], NV=1, conds=C1),
             dict(progs=[P("R", cvw(), "RU"), P("G1", "L", cvw(), "U"), P("G2", "R", cvw(), "RU"), P("G3", "L", "S", "U")], NV=1),
@@ -136,7 +141,10 @@ RANDOM = {
             dict(progs=[P("L", cvl(v=1), "U"), P("G1", "L", "set11", "U", "S"), P("G1", "L", "U")], NV=1),
             dict(progs=[P("L", cvw(), "U"), P("G1", "R", "S", "RU"), P("G1", "R", "RU"), P("G1", "R", "RU", "L", "U")], NV=1),
             dict(progs=[P("L", cvl(v=1, dl=1), "U"), P("L", wnl(v=1, dl=1), "U"), P("L", "set11", "B", "U"), P("L", "U")], NV=1),
-            dict(progs=[P("L", cvl(v=1, dl=1, x=9), "U"), P("L", cvl(v=1, dl=2, x=9), "U"), P("L", "set11", "U", "S")], NV=1, MaxNow=2)],
+            dict(progs=[P("L", cvl(v=1, dl=1, x=9), "U"), P("L", cvl(v=1, dl=2, x=9), "U"), P("L", "set11", "U", "S")], NV=1, MaxNow=2),
+            # native and generic-lock waiters of the same mutex on one cv (6.8)
+            dict(progs=[P("L", cvw(), "U", "L", "U"), P("G1", "L", cvw(x=9), "U"), P("G2", "L", "B", "U")], NV=1),
+            dict(progs=[P("R", cvl(v=1), "RU"), P("L", cvl(v=1, x=9), "U", "L", "U"), P("L", cvl(v=1, dl=1), "U"), P("L", "set11", "B", "U", "L", "U")], NV=1, MaxNow=1)],
     "C05": [dict(progs=[P("L", cvl(v=1, dl=1, cn=True), "U"), P("R", mwt(1, dl=2, cn=True), "RU"), P("N"), P("L", "set11", "S", "U")], NV=1, conds=C1),
             dict(progs=[P("L", mwt(1), "U"), P("L", mwt(1, dl=1), "U"), P("L", "set11", "U"), P("L", "U")], NV=1, conds=C1)],
     "C06": [dict(progs=[P("L", mwt(1), "U"), P("G1", "R", "RU"), P("G1", "L", "U", "L", "set11", "U")], NV=1, conds=C1),
